@@ -91,6 +91,32 @@ pub fn hold_case(rep: &mut Report, seed: u64, idx: u64, verbose: bool) {
         }
     }
     drop(bus);
+    // --- T4: at most one GAP poll per token visit (FDL status requests the applications did not send) ---
+    {
+        let bus = run.world.bus.borrow();
+        for (i, st) in cfg.stations.iter().enumerate() {
+            let r: &Vec<Us> = &receipts[i];
+            let app_req_times: std::collections::BTreeSet<Us> = run.taps[i]
+                .iter()
+                .filter_map(|(_, e)| if let TapEv::Ask { t, sent: Some(_), .. } = e { Some(*t) } else { None })
+                .collect();
+            let port = run.world.stations[i].phy.port;
+            let mut polls_in_visit: std::collections::BTreeMap<usize, u32> = Default::default();
+            for f in bus.trace.iter().filter(|f| f.sender == port && f.start >= c) {
+                if let Some(t) = &f.decoded {
+                    if t.is_fdl_status_req() && !app_req_times.contains(&f.start) {
+                        let v = r.partition_point(|x| *x <= f.start);
+                        *polls_in_visit.entry(v).or_default() += 1;
+                        rep.count("C13_gap_polls_counted");
+                    }
+                }
+            }
+            if let Some((v, n)) = polls_in_visit.iter().find(|(_, n)| **n > 1) {
+                rep.violation("C13/T4/several-gap-polls-in-one-visit", format!("#{} sent {} GAP polls during one token visit (visit starting at {}us) ({})", st.addr, n, r.get(v.saturating_sub(1)).copied().unwrap_or(0), cfg.json().render()));
+                return;
+            }
+        }
+    }
     // --- T1 / T3 from the tap ---
     for (i, st) in cfg.stations.iter().enumerate() {
         let r: Vec<Us> = receipts[i].clone();
